@@ -34,6 +34,7 @@ def gen_dist(rng, case, events=None, kind=None, normalised=True, allow_zero=True
     from msdm.core.distributions import DictDistribution, UniformDistribution, DeterministicDistribution, \
         SoftmaxDistribution
     from msdm.core.table import ProbabilityTable, TableIndex
+    requested = kind
     kind = kind or rng.choice(["dict", "dict", "uniform", "deterministic", "softmax", "table"])
     pool = events or EVENTS
     n = rng.randint(1, min(5, len(pool)))
@@ -60,6 +61,22 @@ def gen_dist(rng, case, events=None, kind=None, normalised=True, allow_zero=True
         w = [float(x) * rng.choice([0.5, 1.0, 2.0]) for x in w]
     ref = dict(zip(ev, w))
     if kind == "dict":
+        r_ = rng.random()
+        if r_ < 0.25:
+            # the other documented constructors: pairs (an event may be listed several times, masses add up) ...
+            pairs = []
+            for e, x in zip(ev, w):
+                if rng.random() < 0.4:
+                    pairs += [(e, x / 2), (e, x / 2)]
+                else:
+                    pairs.append((e, x))
+            rng.shuffle(pairs)
+            case.count("dict_distributions_built_from_pairs")
+            return DictDistribution.from_pairs(pairs), ref, kind
+        if requested is None and r_ < 0.35 and len(set(w)) == 1 and w[0] > 0:
+            return DictDistribution.uniform(list(ev)), {e: 1.0 / n for e in ev}, "uniform"      # ... and the class-method spellings
+        if requested is None and r_ < 0.4 and n == 1 and w[0] == 1.0:
+            return DictDistribution.deterministic(ev[0]), {ev[0]: 1.0}, "deterministic"
         return DictDistribution(dict(zip(ev, w))), ref, kind
     # table-backed: row of a 2-field ProbabilityTable
     rows = rng.randint(1, 3)
